@@ -43,9 +43,44 @@ def gen_generator_history(rng, tier):
     return {"prog": "genctx", "ops": ops, "relax_inflight": True}
 
 
+def gen_interrupted_completion(rng):
+    """A completion handler of the probe is interrupted by KeyboardInterrupt / SystemExit while
+    the probe is being deactivated: the interrupt goes through, and the probe is out all the same --
+    nothing caused afterwards reaches any of its stages (another probe keeps the functions
+    instrumented)."""
+    f = rng.choice(FNS)
+    v, w = rng.choice(local_vars(f)), rng.choice(local_vars(f))
+    one = lambda var: {"levels": [{"fn": f, "caps": [], "sibs": []}], "focus": {"var": var, "as": var}}
+    pc = rng.choice([0.6, 0.8])
+    call = lambda: {"op": "call", "fn": rng.choice([f, "S"]), "nargs": 1,
+                    "tape": tree_tape(rng, rng.randint(2, 16), {f}, pc, 0.0), "faults": {}}
+    ops = [{"op": "mk", "id": "p0", "inv": "C17.stream", "sels": [one(v)]},
+           {"op": "mk", "id": "p1", "inv": "C17.stream", "sels": [one(w)]}]
+    stages = [{"op": "stage", "id": "p0", "kind": rng.choice(KINDS), "cap": v} for _ in range(rng.choice([0, 1, 2]))]
+    stages.insert(rng.randint(0, len(stages)),
+                  {"op": "stage", "id": "p0", "kind": rng.choice(["accum", "count", "map"]), "cap": v,
+                   "abort_on_complete": rng.choice(["kbd", "exit"])})
+    ops += stages
+    glob = rng.random() < 0.5
+    ops += [{"op": "enter", "id": "p1"}, {"op": "enter", "id": "p0"}] if glob else \
+           [{"op": "enter", "id": "p0"}, {"op": "enter", "id": "p1"}]
+    ops += [call() for _ in range(rng.randint(1, 2))]
+    if not glob:
+        ops += [{"op": "exit", "id": "p1"}, {"op": "exit", "id": "p0"}, {"op": "mk", "id": "p2", "inv": "C17.stream", "sels": [one(w)]},
+                {"op": "enter", "id": "p2"}]
+    else:
+        ops += [{"op": "exit", "id": "p0"}]
+    if rng.random() < 0.5:
+        ops.append({"op": "stage", "id": "p0", "kind": rng.choice(["accum", "map", "sum", "last"]), "cap": v})
+    ops += [call(), call(), {"op": "exit", "id": "p2" if not glob else "p1"}, call()]
+    return {"prog": "calltree", "ops": ops}
+
+
 def gen(rng, tier, quarantine=()):
     if "no-generators" not in quarantine and rng.random() < 0.1:
         return gen_generator_history(rng, tier)
+    if "no-interrupted-completion" not in quarantine and rng.random() < 0.08:
+        return gen_interrupted_completion(rng)
     fns = rng.sample(FNS, rng.choice([1, 2]))
     nprobes = rng.choice([1, 2, 2, 3])
     ops = []
